@@ -25,6 +25,8 @@ var opFields = map[string][]string{
 	"enable":    {"svc", "prov", "owner", "dep"},
 	"refund":    {"svc", "prov", "owner"},
 	"call":      {"tx", "idx", "svc", "provs", "cons", "cap", "timeout", "super", "rep", "freq", "total", "input"},
+	"modcall":   {"tx", "idx", "svc", "provs", "cons", "cap", "timeout", "super", "rep", "freq", "total", "input", "mscode", "msout"},
+	"modbind":   {"svc", "prov", "owner", "dep", "price", "promT", "promV", "qos"},
 	"modcreate": {"tx", "idx", "mod", "svc", "provs", "cons", "cap", "timeout", "super", "rep", "freq", "total", "input", "state", "thr"},
 	"respond":   {"req", "prov", "code", "out"},
 	"pause":     {"ctx", "cons"},
